@@ -55,6 +55,7 @@ def meshes(tier):
            ("ref", 4, 1.0, 2.0, 1, 1), ("ref", 3, 2.0, 0.5, 1, 2), ("ref", 4, 1.0, 3.0, 1, 1)]
     out += [("w", w) for w in [(1.0, 1.0), (0.5, 2.0), (2.0, 0.5), (1.0, 2.0)]]
     out += [("w", w) for w in space.width_vectors(3)]
+    out += [("w", w) for w in space.ODD_SCALE_WIDTHS] + [("ref", 4, 1e-6, 2.0, 1, 1)]
     w4 = space.width_vectors(4)
     out += [("w", w) for w in (w4 if tier == "thorough" else w4[::8])]
     if tier == "thorough":
